@@ -94,6 +94,15 @@ class Report:
     # ----- output -----
     def finish(self, seed=0, write=True):
         known = load_known()
+        # a known finding is ONE site: a second violation that happens to produce the same key (a new division in the same function
+        # reading the same kinds of state) is a different violation and is not covered by the listed one
+        used_ = {}
+        for v in self.violations:
+            k_ = known.get(v["key"])
+            if k_ and k_.get("status") == "known" and k_.get("property") == self.prop:
+                used_[v["key"]] = used_.get(v["key"], 0) + 1
+                if used_[v["key"]] > int(k_.get("count", 1)):
+                    v["key"] = "%s#%d" % (v["key"], used_[v["key"]])
         unexplained = [v for v in self.violations if not (known.get(v["key"], {}).get("status") == "known" and known[v["key"]].get("property") == self.prop)]
         if not unexplained:
             self.check_floors()  # a failing rule already explains low counts elsewhere
